@@ -16,6 +16,9 @@ use std::sync::Arc;
 use std::time::Duration;
 
 use super::Semphore;
+#[cfg(may_verif)]
+use crate::verif::SegQueue;
+#[cfg(not(may_verif))]
 use crossbeam::queue::SegQueue;
 
 /// /////////////////////////////////////////////////////////////////////////////
